@@ -139,24 +139,27 @@ func (s *coStore) CommitConsumerOffset(ctx context.Context, group, topic string,
 
 // ---------- the runner ----------
 type coRunner struct {
-	cs     coCase
-	store  *coStore
-	c      *GroupCoordinator
-	base   time.Time
-	ids    []string
-	keys   [][2]int // probe keys (topic index, partition)
-	steps  []coStep
-	fails  []coFail
-	tags   map[string]bool
-	keep   bool
-	meta   map[string][]int32
+	cs    coCase
+	store *coStore
+	c     *GroupCoordinator
+	base  time.Time
+	ids   []string
+	keys  [][2]int // probe keys (topic index, partition)
+	steps []coStep
+	fails []coFail
+	tags  map[string]bool
+	keep  bool
+	meta  map[string][]int32
 	// harness-side (black-box) bookkeeping for the oracles
-	sub         map[string][]string // subscription of the member's last join request
-	lastGen     map[string]int32    // generation in the member's last join reply
-	sess        map[string]int64    // session timeout the member asked for (effective)
-	refresh     map[string]int64    // time of the last accepted refresh (join, or heartbeat of a current member)
-	changedSub  map[string]bool     // re-joined a Stable group with a different subscription and the generation did not move
-	hbRebal     map[string]bool     // the last refresh was a heartbeat answered while the group was rebalancing
+	sub        map[string][]string // subscription of the member's last join request
+	lastGen    map[string]int32    // generation in the member's last join reply
+	sess       map[string]int64    // session timeout the member asked for (effective)
+	refresh    map[string]int64    // time of the last accepted refresh (join, or heartbeat of a current member)
+	changedSub map[string]bool     // re-joined a Stable group with a different subscription and the generation did not move
+	hbRebal    map[string]bool     // the last refresh was a heartbeat answered while the group was rebalancing
+	// ground truth that does not depend on what the store hands back after a failover
+	fenced      map[string]bool // ids seen to leave / be expired from the group in this incarnation and not re-joined since
+	genSeen     int32           // highest generation the group was seen to have in this incarnation
 	epoch       int
 	failoverIn  bool // a failover happened in this group incarnation
 	maxGen      int32
@@ -421,11 +424,36 @@ func (r *coRunner) newCoordinator() {
 // record finishes a step: snapshots + group-incarnation bookkeeping
 func (r *coRunner) record(s coStep) {
 	s.mem, s.store, s.offs = r.snapMem(), r.snapStore(), r.offsets()
+	if len(r.steps) > 0 && s.kind != "failover" {
+		// a member that was in the coordinator's memory before this operation and is not
+		// after it has been removed (left, expired, dropped): it is fenced from now on
+		if prev := r.steps[len(r.steps)-1].mem; prev != nil {
+			for _, m := range prev.members {
+				if s.mem.member(m.id) == nil {
+					r.fenced[m.id] = true
+				}
+			}
+		}
+	}
+	if s.mem != nil {
+		for _, m := range s.mem.members {
+			if s.kind == "join" && (m.id == s.fresh || m.id == s.mid) {
+				delete(r.fenced, m.id)
+			}
+		}
+		if s.mem.gen > r.genSeen {
+			r.genSeen = s.mem.gen
+		}
+		// C13: the generation never decreases while the group exists (also across failover)
+		if s.mem.gen < r.genSeen {
+			r.fail("C13", "generation-decreased", fmt.Sprintf("the group had generation %d and now has %d", r.genSeen, s.mem.gen))
+		}
+	}
 	r.steps = append(r.steps, s)
 	if s.mem == nil && s.store == nil && (r.maxGen != 0 || len(r.sub) > 0) {
 		// the group is gone: a later group of the same name is a new incarnation
 		r.epoch++
-		r.maxGen, r.failoverIn = 0, false
+		r.maxGen, r.failoverIn, r.genSeen, r.fenced = 0, false, 0, map[string]bool{}
 		r.sub, r.lastGen, r.sess, r.refresh, r.changedSub, r.hbRebal = map[string][]string{}, map[string]int32{}, map[string]int64{}, map[string]int64{}, map[string]bool{}, map[string]bool{}
 	}
 }
@@ -577,12 +605,12 @@ func (r *coRunner) doSync(ctx context.Context, op coOp) {
 		st.reply.assign = coDecodeAssignment(resp.MemberAssignment)
 	}
 	post := r.view()
-	current := pre.member(id) != nil && pre.gen == gen
+	current := r.isCurrent(pre, id, gen)
 	// ---- C13 ----
 	if !current {
 		r.tags["sync-stale"] = true
 		if resp.ErrorCode == protocol.NONE {
-			r.fail("C13", "stale-sync-accepted", fmt.Sprintf("sync of %q generation %d answered NONE; current generation %d, member present %v", id, gen, coGen(pre), pre.member(id) != nil))
+			r.fail("C13", "stale-sync-accepted", fmt.Sprintf("sync of %q generation %d answered NONE; generation in view %d (highest seen %d), member in view %v, removed earlier %v", id, gen, coGen(pre), r.genSeen, pre.member(id) != nil, r.fenced[id]))
 		}
 	}
 	r.checkOffsetsUnchanged("C13", "sync", offsBefore)
@@ -607,6 +635,15 @@ func (r *coRunner) doSync(ctx context.Context, op coOp) {
 	}
 	r.preFailover = nil
 	r.record(st)
+}
+
+// isCurrent: (member, generation) is a current member in the current generation. The
+// view (memory, else what the store restores) is cross-checked with what the harness
+// itself saw happen: a member that was removed stays fenced until it joins again, and
+// the current generation is never below one the group already had -- whatever image
+// a new coordinator finds in the store.
+func (r *coRunner) isCurrent(pre *coGroupSnap, id string, gen int32) bool {
+	return pre.member(id) != nil && pre.gen == gen && !r.fenced[id] && gen >= r.genSeen
 }
 
 func coGen(v *coGroupSnap) int32 {
@@ -736,11 +773,11 @@ func (r *coRunner) doHeartbeat(ctx context.Context, op coOp) {
 	now := r.now()
 	resp := r.c.Heartbeat(ctx, req)
 	st := coStep{kind: "hb", mid: id, gen: gen, now: now, reply: coReply{kind: "err", err: resp.ErrorCode}}
-	current := pre.member(id) != nil && pre.gen == gen
+	current := r.isCurrent(pre, id, gen)
 	if !current {
 		r.tags["hb-stale"] = true
 		if resp.ErrorCode == protocol.NONE {
-			r.fail("C13", "stale-heartbeat-accepted", fmt.Sprintf("heartbeat of %q generation %d answered NONE; current generation %d, member present %v", id, gen, coGen(pre), pre.member(id) != nil))
+			r.fail("C13", "stale-heartbeat-accepted", fmt.Sprintf("heartbeat of %q generation %d answered NONE; generation in view %d (highest seen %d), member in view %v, removed earlier %v", id, gen, coGen(pre), r.genSeen, pre.member(id) != nil, r.fenced[id]))
 		}
 	} else {
 		// a heartbeat of a current member in the current generation keeps the session alive
@@ -815,11 +852,11 @@ func (r *coRunner) doCommit(ctx context.Context, op coOp) {
 	}
 	code := resp.Topics[0].Partitions[0].ErrorCode
 	st := coStep{kind: "commit", mid: id, gen: gen, t: op.T % len(coTopicNames), p: op.P, off: op.Off, now: now, reply: coReply{kind: "err", err: code}}
-	current := pre.member(id) != nil && pre.gen == gen
+	current := r.isCurrent(pre, id, gen)
 	if !current {
 		r.tags["commit-stale"] = true
 		if code == protocol.NONE {
-			r.fail("C13", "stale-commit-accepted", fmt.Sprintf("commit of %q generation %d answered NONE; current generation %d, member present %v", id, gen, coGen(pre), pre.member(id) != nil))
+			r.fail("C13", "stale-commit-accepted", fmt.Sprintf("commit of %q generation %d answered NONE; generation in view %d (highest seen %d), member in view %v, removed earlier %v", id, gen, coGen(pre), r.genSeen, pre.member(id) != nil, r.fenced[id]))
 		}
 		if !interleaved {
 			r.checkOffsetsUnchanged("C13", "stale-commit", offsBefore)
@@ -978,7 +1015,7 @@ func coDetectKeep() bool {
 
 func coNewRunner(cs coCase) *coRunner {
 	r := &coRunner{cs: cs, tags: map[string]bool{}, meta: map[string][]int32{}, keep: coDetectKeep(),
-		sub: map[string][]string{}, lastGen: map[string]int32{}, sess: map[string]int64{}, refresh: map[string]int64{}, changedSub: map[string]bool{}, hbRebal: map[string]bool{},
+		sub: map[string][]string{}, lastGen: map[string]int32{}, sess: map[string]int64{}, refresh: map[string]int64{}, changedSub: map[string]bool{}, hbRebal: map[string]bool{}, fenced: map[string]bool{},
 		syncLog: map[string]map[string][]assignmentTopic{}}
 	var topics []protocol.MetadataTopic
 	for i, parts := range cs.Parts {
@@ -1095,7 +1132,13 @@ func coGenCase(t *testing.T, rng *vRand) *coRunner {
 		}
 		return out
 	}
+	var pending []coOp // a planned multi-operation shape in progress
 	next := func(r *coRunner, i int) (coOp, bool) {
+		if len(pending) > 0 {
+			op := pending[0]
+			pending = pending[1:]
+			return op, true
+		}
 		if i >= nops {
 			return coOp{}, false
 		}
@@ -1186,6 +1229,63 @@ func coGenCase(t *testing.T, rng *vRand) *coRunner {
 				}
 			}
 			return op
+		}
+		// shape: a member is removed (expired by a cleanup tick, or leaves), the coordinator
+		// fails over before any survivor has rejoined, then the removed member and the
+		// survivors send requests with the generation they last saw
+		if v != nil && len(cur) >= 2 && rng.Chance(9) {
+			zombieRequests := func(slot int) []coOp {
+				all := []coOp{
+					{K: "commit", M: slot, G: 1, T: rng.Intn(3), P: int32(rng.Intn(3)), Off: int64(rng.Range(1, 1000))},
+					{K: "hb", M: slot, G: 1},
+					{K: "sync", M: slot, G: 1},
+				}
+				k := rng.Intn(3)
+				all[0], all[k] = all[k], all[0]
+				return all[:rng.Range(1, 3)]
+			}
+			var plan []coOp
+			var victim, survivor int
+			if rng.Chance(70) {
+				// the member whose session ends first expires; the others heartbeat just before the tick
+				best := int64(-1)
+				for _, sl := range cur {
+					m := v.member(r.ids[sl])
+					if e := m.hb + m.sess; best < 0 || e < best {
+						best, victim = e, sl
+					}
+				}
+				d := best + 1 - r.now()
+				if d < 1 {
+					d = 1
+				}
+				plan = append(plan, coOp{K: "adv", D: d})
+				for _, sl := range cur {
+					if sl != victim {
+						plan = append(plan, coOp{K: "hb", M: sl})
+						survivor = sl
+					}
+				}
+				plan = append(plan, coOp{K: "cleanup"})
+			} else {
+				victim = cur[rng.Intn(len(cur))]
+				for _, sl := range cur {
+					if sl != victim {
+						survivor = sl
+					}
+				}
+				plan = append(plan, coOp{K: "leave", M: victim})
+			}
+			plan = append(plan, coOp{K: "failover"})
+			plan = append(plan, zombieRequests(victim)...)
+			if rng.Bool() {
+				plan = append(plan, zombieRequests(survivor)[0]) // a survivor still using the old generation
+			}
+			if rng.Bool() {
+				plan = append(plan, rejoin(survivor, false), coOp{K: "sync", M: survivor})
+			}
+			pending = plan[1:]
+			return plan[0], true
 		}
 		// progress moves make complete rebalances frequent
 		if v != nil && rng.Chance(45) {
@@ -1422,6 +1522,14 @@ func coCorpus() []coCase {
 		{Parts: p, Seed: 15, Ops: []coOp{{K: "join", M: -1, Sess: 40000, Reb: 60000, Topics: []int{0, 1}}, {K: "failover"}, {K: "sync", M: 0}, {K: "failover"}, {K: "hb", M: 0}, {K: "failover"}, {K: "sync", M: 0},
 			{K: "join", M: -1, Topics: []int{1, 2}}, {K: "failover"}, {K: "join", M: 0, Topics: []int{0, 1}}, {K: "failover"}, {K: "sync", M: 0}, {K: "failover"}, {K: "sync", M: 1}, {K: "failover"}, {K: "commit", M: 1, T: 1, P: 0, Off: 3},
 			{K: "adv", D: 30001}, {K: "hb", M: 0}, {K: "cleanup"}}},
+		// C13 / C15: a member expires, failover before any survivor rejoins, then the expired
+		// member (and a survivor) use the old generation: all fenced, generation not going back
+		{Parts: p, Seed: 17, Ops: []coOp{{K: "join", M: -1, Sess: 5000, Topics: []int{0}}, {K: "sync", M: 0}, {K: "join", M: -1, Sess: 40000, Topics: []int{0}}, {K: "join", M: 0, Sess: 5000, Topics: []int{0}}, {K: "sync", M: 0}, {K: "sync", M: 1},
+			{K: "commit", M: 0, T: 0, P: 0, Off: 7}, {K: "adv", D: 5001}, {K: "hb", M: 1}, {K: "cleanup"}, {K: "failover"},
+			{K: "commit", M: 0, G: 1, T: 0, P: 0, Off: 9}, {K: "hb", M: 0, G: 1}, {K: "sync", M: 0, G: 1}, {K: "commit", M: 1, G: 1, T: 0, P: 0, Off: 11}, {K: "join", M: 1, Sess: 40000, Topics: []int{0}}, {K: "sync", M: 1}}},
+		// the same with a LeaveGroup instead of an expiry
+		{Parts: p, Seed: 18, Ops: []coOp{{K: "join", M: -1, Topics: []int{0}}, {K: "sync", M: 0}, {K: "join", M: -1, Topics: []int{0}}, {K: "join", M: 0, Topics: []int{0}}, {K: "sync", M: 0},
+			{K: "leave", M: 1}, {K: "failover"}, {K: "commit", M: 1, G: 1, T: 0, P: 1, Off: 5}, {K: "sync", M: 1, G: 1}, {K: "hb", M: 0, G: 1}}},
 		// C14 / C43: laggers at the rebalance deadline
 		{Parts: p, Seed: 16, Ops: []coOp{{K: "join", M: -1, Sess: 40000, Reb: 5000, Topics: []int{0}}, {K: "sync", M: 0}, {K: "join", M: -1, Sess: 40000, Reb: 5000, Topics: []int{0}}, {K: "adv", D: 4999}, {K: "cleanup"}, {K: "adv", D: 1}, {K: "cleanup"},
 			{K: "join", M: 1, Sess: 40000, Reb: 5000, Topics: []int{0}}, {K: "sync", M: 1}}},
@@ -1457,6 +1565,34 @@ func coWriteCases(rep *vReport, prop string, coq, jsons []string) {
 	rep.CaseCount += len(coq)
 }
 
+// coShapeTags: histogram entries for history shapes the oracles depend on
+func coShapeTags(r *coRunner, rep *vReport) {
+	for i := 2; i < len(r.steps); i++ {
+		if r.steps[i-1].kind != "failover" {
+			continue
+		}
+		prev, before := r.steps[i-2], (*coGroupSnap)(nil)
+		if i >= 3 {
+			before = r.steps[i-3].mem
+		}
+		removedJustBefore := false
+		if before != nil && (prev.kind == "cleanup" || prev.kind == "leave") {
+			for _, m := range before.members {
+				if prev.mem != nil && prev.mem.member(m.id) == nil {
+					removedJustBefore = true
+				}
+			}
+		}
+		if removedJustBefore {
+			rep.Hist("removal-then-failover")
+			k := r.steps[i].kind
+			if (k == "commit" || k == "hb" || k == "sync") && r.steps[i].reply.err != 0 {
+				rep.Hist("removal-then-failover-then-rejected-request")
+			}
+		}
+	}
+}
+
 func coNontrivial(r *coRunner) bool {
 	return r.tags["sync-success"] && r.tags["join-existing"] && len(r.steps) >= 5
 }
@@ -1475,6 +1611,7 @@ func TestVerifCoordinator(t *testing.T) {
 			rep.Hist(tg)
 		}
 		rep.Hist(fmt.Sprintf("ops<=%d", ((len(r.steps)+9)/10)*10))
+		coShapeTags(r, rep)
 		rep.Sample(r.cs)
 		for _, f := range r.fails {
 			if f.prop != prop && f.prop != "*" {
